@@ -760,7 +760,7 @@ impl RenderNode {
                 result
             }
             Header(level, ref v) => {
-                let prefix_size = decorator.header_prefix(level).len();
+                let prefix_size = UnicodeWidthStr::width(decorator.header_prefix(level).as_str());
                 let mut size = v
                     .iter()
                     .map(recurse)
@@ -2007,7 +2007,7 @@ fn do_render_node<T: Write, D: TextDecorator>(
         Header(level, children) => {
             let prefix = renderer.header_prefix(level);
             let prefix_size = size_estimate.prefix_size;
-            debug_assert!(prefix.len() == prefix_size);
+            debug_assert!(UnicodeWidthStr::width(prefix.as_str()) == prefix_size);
             let min_width = size_estimate.min_width;
             let inner_width = min_width.saturating_sub(prefix_size);
             let sub_builder =
@@ -2033,10 +2033,12 @@ fn do_render_node<T: Write, D: TextDecorator>(
         }
         BlockQuote(children) => {
             let prefix = renderer.quote_prefix();
-            debug_assert!(size_estimate.prefix_size == prefix.len());
-            let inner_width = size_estimate.min_width - prefix.len();
+            // Layout is in terminal columns, not bytes.
+            let prefix_width = UnicodeWidthStr::width(prefix.as_str());
+            debug_assert!(size_estimate.prefix_size == prefix_width);
+            let inner_width = size_estimate.min_width.saturating_sub(prefix_width);
             let sub_builder =
-                renderer.new_sub_renderer(renderer.width_minus(prefix.len(), inner_width)?)?;
+                renderer.new_sub_renderer(renderer.width_minus(prefix_width, inner_width)?)?;
             renderer.push(sub_builder);
             pending2(children, move |renderer: &mut TextRenderer<D>, _| {
                 let sub_builder = renderer.pop();
@@ -2050,7 +2052,8 @@ fn do_render_node<T: Write, D: TextDecorator>(
         }
         Ul(items) => {
             let prefix = renderer.unordered_item_prefix();
-            let prefix_len = prefix.len();
+            // Layout is in terminal columns, not bytes.
+            let prefix_len = UnicodeWidthStr::width(prefix.as_str());
 
             TreeMapResult::PendingChildren {
                 children: items,
@@ -2059,7 +2062,7 @@ fn do_render_node<T: Write, D: TextDecorator>(
                     Ok(Some(None))
                 }),
                 prefn: Some(Box::new(move |renderer: &mut TextRenderer<D>, _| {
-                    let inner_width = size_estimate.min_width - prefix_len;
+                    let inner_width = size_estimate.min_width.saturating_sub(prefix_len);
                     let sub_builder = renderer
                         .new_sub_renderer(renderer.width_minus(prefix_len, inner_width)?)?;
                     renderer.push(sub_builder);
@@ -2068,7 +2071,7 @@ fn do_render_node<T: Write, D: TextDecorator>(
                 postfn: Some(Box::new(move |renderer: &mut TextRenderer<D>, _| {
                     let sub_builder = renderer.pop();
 
-                    let indent = " ".repeat(prefix.len());
+                    let indent = " ".repeat(prefix_len);
 
                     renderer.append_subrender(
                         sub_builder,
